@@ -34,9 +34,12 @@ $(B)/obj/tsan/eng_threadsim.o: engines/threadsim.cpp
 $(B)/obj/tsan/baton.o: sim/baton/baton.cpp
 	@mkdir -p $(dir $@)
 	$(CXX) $(COMMON) $(INC_TSAN) -c $< -o $@
-$(B)/bin/threadsim: $(B)/obj/tsan/eng_threadsim.o $(B)/obj/tsan/baton.o $(B)/obj/tsan/kernel.o $(B)/obj/tsan/seams.o $(B)/tsan/src/libxerces-c.a
+# ICU converter calls go through sim/icuwrap.cpp (the ICU entry points carry a version suffix: ask the preprocessor for it)
+ICUSUF := $(shell printf '\043include <unicode/urename.h>\nucnv_open\n' | $(CXX) -E -P -x c++ - 2>/dev/null | tail -1 | sed 's/^ucnv_open//')
+ICUWRAP := $(foreach f,ucnv_fromUChars ucnv_toUChars ucnv_fromUnicode ucnv_toUnicode ucnv_setFromUCallBack ucnv_close,-Wl,--wrap=$(f)$(ICUSUF))
+$(B)/bin/threadsim: $(B)/obj/tsan/eng_threadsim.o $(B)/obj/tsan/baton.o $(B)/obj/tsan/kernel.o $(B)/obj/tsan/seams.o $(B)/obj/tsan/icuwrap.o $(B)/tsan/src/libxerces-c.a
 	@mkdir -p $(dir $@)
-	$(CXX) $(TSAN) -o $@ $(B)/obj/tsan/eng_threadsim.o $(B)/obj/tsan/baton.o $(B)/obj/tsan/kernel.o $(B)/obj/tsan/seams.o $(LIBS_TSAN)
+	$(CXX) $(TSAN) $(ICUWRAP) -o $@ $(B)/obj/tsan/eng_threadsim.o $(B)/obj/tsan/baton.o $(B)/obj/tsan/kernel.o $(B)/obj/tsan/seams.o $(B)/obj/tsan/icuwrap.o $(LIBS_TSAN)
 
 -include $(wildcard $(B)/obj/asan/*.d) $(wildcard $(B)/obj/tsan/*.d)
 .SECONDARY:
